@@ -251,8 +251,9 @@ class State:
             raise PyRaise(SExc(exc_cls, (msg,), site="builtin"))
 
     # ---- obligations
-    def oblige(self, name, formula, kind="post"):
-        """Record and check `pc => formula`; afterwards assume it."""
+    def oblige(self, name, formula, kind="post", assume_after=True):
+        """Record and check `pc => formula`; afterwards assume it (unless `assume_after=False`: contracts with
+        `independent_posts = True` keep proved quantified clauses out of the later queries of the same path)."""
         key = (name, self.path_key())
         if isinstance(formula, SBool):
             formula = formula.e
@@ -289,7 +290,17 @@ class State:
                         ob.detail = f"counterexample to: {_short(formula)}"
                 else:
                     ob.status = "undecided"
-                    if self.cfg.use_cvc5:
+                    # the incremental (push/pop) solver gave up: one more try with a fresh, non-incremental z3
+                    # (full preprocessing), which decides many quantified queries at once
+                    fs = z3.Solver()
+                    fs.set("timeout", self.cfg.oblig_timeout_ms)
+                    fs.add(*self.pc)
+                    fs.add(z3.Not(formula))
+                    if fs.check() == z3.unsat:
+                        ob.status, ob.backend = "discharged", "z3-fresh"
+                    self.ex.solver_time += time.time() - t0
+                    self.ex.queries += 1
+                    if ob.status == "undecided" and self.cfg.use_cvc5:
                         smt = self.to_smt2(z3.Not(formula))
                         r2 = cvc5_check(smt)
                         if r2 == "unsat":
@@ -301,7 +312,8 @@ class State:
                     self.ex.kept_smt2 += 1
                     ob.smt2 = self.to_smt2(z3.Not(formula))
             ob.time = time.time() - t0
-        self.assume(formula)
+        if assume_after:
+            self.assume(formula)
         return ob
 
     def known_conds(self, known):
